@@ -296,17 +296,57 @@ def translate(repo, relfile, fn):
     return Fn(clang_ast(repo, relfile, fn))
 
 
+HDR_TYPES = {'int32_t': 'TInt', 'uint32_t': 'TUInt', 'int64_t': 'TLong', 'uint64_t': 'TULong', 'size_t': 'TULong'}
+BUILTIN_OPS = {'add': 'BAdd', 'sub': 'BSub', 'mul': 'BMul'}
+
+
+def entry_points(repo):
+    """the inline KS_<ty>_<op>_overflow entry points of libks/arithmetic.h: each must be exactly
+         #if has_builtin(__builtin_<op>_overflow)  return __builtin_<op>_overflow(a, b, c) ? 1 : 0;
+         #else                                     return KS_<ty>_<op>_overflow0(a, b, c);   #endif
+    with a, b of the type the name promises and c a pointer to it.  Returns [(name, cty, builtin op)]."""
+    text = open(os.path.join(repo, 'libks', 'arithmetic.h')).read()
+    text = re.sub(r'/\*.*?\*/', ' ', text, flags=re.S)
+    if not re.search(r'#if defined\(__has_builtin\)\s*#define has_builtin\(x\) __has_builtin\(x\)\s*#else\s*#define has_builtin\(x\) 0\s*#endif', text):
+        raise Unsupported('arithmetic.h: has_builtin is not defined as __has_builtin(x) / 0 any more')
+    out = []
+    for ty in ('i32', 'i64', 'u32', 'u64', 'size'):
+        for op in ('add', 'sub', 'mul'):
+            name = 'KS_%s_%s_overflow' % (ty, op)
+            m = re.findall(r'static\s+inline\s+int\s+%s\(\s*(\w+)\s+a\s*,\s*(\w+)\s+b\s*,\s*(\w+)\s*\*\s*c\s*\)\s*\{(.*?)\n\}' % name, text, re.S)
+            if len(m) != 1:
+                raise Unsupported('%s: expected exactly one inline definition in arithmetic.h, found %d' % (name, len(m)))
+            ta, tb, tc, body = m[0]
+            if not (ta == tb == tc) or ta not in HDR_TYPES:
+                raise Unsupported('%s: parameter types %s, %s, %s *' % (name, ta, tb, tc))
+            want = {'i32': 'int32_t', 'i64': 'int64_t', 'u32': 'uint32_t', 'u64': 'uint64_t', 'size': 'size_t'}[ty]
+            if ta != want:
+                raise Unsupported('%s: operates on %s, the name promises %s' % (name, ta, want))
+            norm = ' '.join(body.split())
+            expect = ('#if has_builtin(__builtin_%s_overflow) return __builtin_%s_overflow(a, b, c) ? 1 : 0; '
+                      '#else return %s0(a, b, c); #endif' % (op, op, name))
+            if norm != expect:
+                raise Unsupported('%s: body is %r, expected %r' % (name, norm, expect))
+            out.append((name, HDR_TYPES[ta], BUILTIN_OPS[op]))
+    return out
+
+
 def generate(repo):
     out = ['(* Gen_Arith.v - GENERATED on every check by harness/t_arith.py from libks/arithmetic.c',
-           '   (clang JSON AST, macros expanded).  Do not edit. *)',
-           'From Coq Require Import ZArith List.', 'From Robsd Require Import Base.CInt.',
+           '   (clang JSON AST, macros expanded) and libks/arithmetic.h (entry points).  Do not edit. *)',
+           'From Coq Require Import ZArith List.', 'From Robsd Require Import Base.CInt Ks.ArithBuiltinDefs.',
            'Import ListNotations.', 'Local Open Scope Z_scope.', '']
     for fn in FUNCS:
         f = translate(repo, 'libks/arithmetic.c', fn)
         if len(f.params) != 2 or f.outptr is None:
             raise Unsupported('%s: expected two scalar operands and one out-pointer' % fn)
         out.append(f.gallina())
-    return {'Gen_Arith.v': '\n'.join(out)}
+    out.append('(* arithmetic.h: static inline entry points; with the builtin: __builtin_<op>_overflow(a, b, c) ? 1 : 0,')
+    out.append('   without it: the fallback above *)')
+    for name, cty, bop in entry_points(repo):
+        out.append('Definition %s_builtin (a b : Z) : cres := cbuiltin_overflow %s %s a b.' % (name, cty, bop))
+        out.append('Definition %s_nobuiltin (a b : Z) : cres := %s0 a b.' % (name, name))
+    return {'Gen_Arith.v': '\n'.join(out) + '\n'}
 
 
 if __name__ == '__main__':
